@@ -136,7 +136,7 @@ def run(ctx):
             U = rand_kv(rng, pmax=4, maxmult=None, bigknots=False)
         p, npts, knots = kv_info(U)
         P = rand_points(rng, npts, big=big)
-        W = rand_weights(rng, npts) if i % 9 != 4 else rand_weights(rng, npts, rng.choice(["tiny", "nearequal", "huge"]))
+        W = rand_weights(rng, npts) if i % 9 != 4 else rand_weights(rng, npts, rng.choice(["tiny", "nearequal", "huge", "neg"]))
         if rep in ("float", "npfloat") and W is not None:
             W = [F(rng.randint(2, 50), 10) for _ in range(npts)]
         us = params_for(rng, U) + (hair_params(U) if rep == "fraction" else [])
